@@ -305,6 +305,91 @@ def source_matches_bin(ck, F, T):
 
 
 # ------------------------------------------------------------------------------------------------
+def _one_axis_tables(ck, F, ce, R):
+    """Row-only ("5" in 5:5) and column-only ("D" in D:D) endpoints: interpret cycle_endpoint from its `column.is_empty()`
+    test to the allocation of the result, for every value of the two scanned flags.  What the scanner can produce for a
+    one-axis endpoint is: no `$` at all, or one leading `$` (which it records in absolute_column, because it is read
+    before the scanner knows whether a column follows).  On those inputs the marker must toggle: `$` present -> absent,
+    absent -> present, and it must be emitted for the axis that exists."""
+    from pathx import Interp, UNKNOWN
+    from mir import op_place, place_proj
+    empties = [(bi, t) for bi, t in ce.calls() if (ce.callee_q(t) or "").endswith("is_empty")]
+    caps = [bi for bi, t in ce.calls() if (ce.callee_q(t) or "").endswith("with_capacity")]
+    names = {}
+    for l in range(len(ce.locals)):
+        nm = ce.local_name(l)
+        if nm in ("absolute_column", "absolute_row", "new_column", "new_row", "column", "row"):
+            names[nm] = l
+    ok_anchor = len(caps) == 1 and all(k in names for k in ("absolute_column", "absolute_row", "new_column", "new_row")) and len(empties) >= 2
+    ck.ob(R, "cycle_endpoint|one-axis anchors", ok_anchor, "cycle_endpoint: flags / is_empty tests / result allocation not found", ce.file, ce.line)
+    if not ok_anchor:
+        return
+    # start at the is_empty test that decides the branch: the last pair of is_empty calls dominating the allocation
+    dec = [bi for bi, t in empties if ce.dominates(bi, caps[0]) or caps[0] in ce.reachable_from(bi)]
+    dec = [bi for bi in dec if not any(ce.dominates(o, bi) and o != bi and caps[0] in ce.reachable_from(o) and False for o in dec)]
+    start = None
+    for bi in sorted(dec):
+        # the first is_empty whose receiver is `column` and from which the allocation is reachable without returning
+        t = ce.blocks[bi]["t"]
+        rt = ce.ref_target(t["args"][0]) if t["args"] else None
+        tr = ce.trace(t["args"][0]) if t["args"] else {"kind": "?"}
+        who = None
+        if tr["kind"] == "place":
+            who = ce.local_name(ce.resolve_place(tr["place"], through_named=False)["l"])
+        elif rt is not None:
+            who = ce.local_name(rt["l"])
+        if who == "column" and ce.dominates(bi, caps[0]):
+            start = bi
+    if start is None:
+        ck.ob(R, "cycle_endpoint|one-axis start", False, "the `column.is_empty()` test that selects the endpoint shape was not found", ce.file, ce.line)
+        return
+    for shape, col_empty, row_empty in (("row-only", True, False), ("column-only", False, True)):
+        def hook(I, t, argv, st, env, col_empty=col_empty, row_empty=row_empty):
+            q = ce.callee_q(t) or ""
+            if q.endswith("is_empty") and t["args"]:
+                tr = ce.trace(t["args"][0])
+                who = None
+                if tr["kind"] == "place":
+                    who = ce.local_name(ce.resolve_place(tr["place"], through_named=False)["l"])
+                else:
+                    rt = ce.ref_target(t["args"][0])
+                    who = ce.local_name(rt["l"]) if rt is not None else None
+                if who == "column":
+                    return col_empty
+                if who == "row":
+                    return row_empty
+            return UNKNOWN
+        I = Interp(ce, F, call_hook=hook)
+        table = {}
+        for a in (False, True):
+            for r in (False, True):
+                st0 = {names["absolute_column"]: a, names["absolute_row"]: r}
+                ps = I.run({}, start=start, st0=st0, stops=caps)
+                outs = set()
+                for p in ps:
+                    if p.events and p.events[-1][0] == "stop":
+                        outs.add((p.env.get(names["new_column"], UNKNOWN), p.env.get(names["new_row"], UNKNOWN)))
+                table[(a, r)] = outs
+        f, l = ce.loc(start)
+        # reachable scanner outputs for a one-axis endpoint: (false,false) and (true,false)  [leading `$` lands in absolute_column];
+        # for a column-only endpoint "$D" that is the column's own marker
+        for (a, r) in ((False, False), (True, False)):
+            outs = table[(a, r)]
+            det = len(outs) == 1 and all(isinstance(x, bool) for x in next(iter(outs)))
+            ck.ob(R, "cycle_endpoint|%s|(%s,%s)|deterministic" % (shape, a, r), det, "%s endpoint with flags (%s,%s) yields %s" % (shape, a, r, outs), f, l)
+            if not det:
+                continue
+            nc, nr = next(iter(outs))
+            had = a or r
+            has = nc or nr
+            right_axis = (not nc) if shape == "row-only" else (not nr)
+            ck.ob(R, "cycle_endpoint|%s|(%s,%s)|toggles" % (shape, a, r), has == (not had) and right_axis,
+                  "a %s endpoint %s `$` is rewritten %s `$` (new_column=%s, new_row=%s): F4 does not alternate between the two states of a "
+                  "one-axis reference (an absolute %s becomes a fixed point, or the marker goes to the missing axis)"
+                  % (shape, "with" if had else "without", "with" if has else "without", nc, nr, "row like $5:$5" if shape == "row-only" else "column like $D:$D"),
+                  f, l, sample={"shape": shape, "in": [a, r], "out": [nc, nr]})
+
+
 def table_cycle(ck, F):
     """TABLE-cycle (C34): next_state is one 4-cycle over {relative,absolute}^2, and cycle_endpoint assembles its
     result only from '$', the upper-cased column slice and the row slice."""
@@ -337,6 +422,7 @@ def table_cycle(ck, F):
     ce = ck.need(F.one, "lexer::util::cycle_endpoint")
     nsc = ce.calls_to("lexer::util::next_state")
     ck.ob(R, "cycle_endpoint|uses-next_state", len(nsc) == 1, "cycle_endpoint calls next_state %d times" % len(nsc), ce.file, ce.line)
+    _one_axis_tables(ck, F, ce, R)
     # what is appended to `result`
     res = [l for l in ce.local_by_name("result")]
     pushes = []
